@@ -88,6 +88,20 @@ pub struct Case {
     pub max_steps: u32,
     /// forged frame delivered to one endpoint at a drawn step (C11 receiver clause, C12)
     pub byz: Option<byz::Byz>,
+    /// the client resumes with remembered server parameters and sends 0-RTT data until the handshake completes
+    #[serde(default)]
+    pub zero_rtt: Option<ZeroRtt>,
+}
+
+/// A resumed connection: until step `fin_at` the client works with the server parameters it remembered (0-RTT);
+/// then the handshake completes with the server's real parameters. `accepted`: the server took the 0-RTT data (its
+/// real limits are then not below the remembered ones, RFC 9000 7.4.1). Otherwise it discarded every packet the
+/// client sent so far, the real limits may be anything, and the client starts over under them.
+#[derive(Clone, Debug, Serialize, Deserialize)]
+pub struct ZeroRtt {
+    pub remembered: Params,
+    pub accepted: bool,
+    pub fin_at: u32,
 }
 
 #[derive(Clone, Copy, PartialEq, Debug)]
@@ -254,9 +268,27 @@ impl Engine for StreamSim {
             loss_after: *f.pick(&[12u16, 40, 150, 600]),
             max_steps: 300_000,
             byz: None,
+            zero_rtt: None,
         };
         if matches!(self.mode, Mode::C11 | Mode::C12) && f.chance(0.7) {
             case.byz = Some(byz::generate(&mut f, self.mode, &case));
+        }
+        // a resumed connection with 0-RTT (own random stream: the other draws are unchanged)
+        let mut z = Rng::derive(seed, "zero-rtt");
+        if case.byz.is_none() && z.one_in(6) {
+            let accepted = z.one_in(2);
+            let real = case.params[1].clone();
+            let mut rem = gen_params(&mut z, self.mode, 0, 0);
+            if accepted {
+                // RFC 9000 7.4.1: a server that accepts 0-RTT does not lower these below what the client remembered
+                rem.max_data = rem.max_data.min(real.max_data);
+                rem.stream_bidi_local = rem.stream_bidi_local.min(real.stream_bidi_local);
+                rem.stream_bidi_remote = rem.stream_bidi_remote.min(real.stream_bidi_remote);
+                rem.stream_uni = rem.stream_uni.min(real.stream_uni);
+                rem.streams_bidi = rem.streams_bidi.min(real.streams_bidi);
+                rem.streams_uni = rem.streams_uni.min(real.streams_uni);
+            }
+            case.zero_rtt = Some(ZeroRtt { remembered: rem, accepted, fin_at: *z.pick(&[5u32, 50, 400, 2000]) });
         }
         case
     }
@@ -272,6 +304,11 @@ impl Engine for StreamSim {
 
     fn shrink(&self, case: &Case) -> Vec<Case> {
         let mut v = Vec::new();
+        if case.zero_rtt.is_some() {
+            let mut c = case.clone();
+            c.zero_rtt = None;
+            v.push(c);
+        }
         for i in 0..case.streams.len() {
             let mut c = case.clone();
             c.streams.remove(i);
@@ -346,7 +383,7 @@ impl Engine for StreamSim {
             "capacities": case.capacities, "base_delay": case.base_delay, "loss_after": case.loss_after,
             "tape_data_first": case.tape.data.iter().enumerate().flat_map(|(d, m)| m.iter().take(8).map(move |(k, f)| format!("d{d}#{k}:{f:?}"))).collect::<Vec<_>>(),
             "tape_entries": case.tape.data[0].len() + case.tape.data[1].len() + case.tape.acks[0].len() + case.tape.acks[1].len(),
-            "spurious_loss": case.tape.spurious_loss, "byz": case.byz,
+            "spurious_loss": case.tape.spurious_loss, "byz": case.byz, "zero_rtt": case.zero_rtt,
         })
     }
 }
